@@ -97,7 +97,7 @@ func InProcessTester(e Engine, want *Violation) Tester {
 	return func(plan interface{}, choices []Choice) (bool, []Choice, *RunReport) {
 		ch := &ReplayChooser{List: choices}
 		rep := e.Run(plan, ch)
-		ok := rep.V != nil && rep.V.Class == want.Class && rep.V.Sub == want.Sub
+		ok := want.Matches(rep.V)
 		return ok, ch.Rec, rep
 	}
 }
@@ -134,7 +134,7 @@ func SubprocessTester(e Engine, base *ReplayFile, dir string, want *Violation) T
 		if err != nil || res.Violation == nil {
 			return false, nil, nil
 		}
-		ok := res.Violation.Class == want.Class && res.Violation.Sub == want.Sub
+		ok := want.Matches(res.Violation)
 		var lh uint64
 		fmt.Sscanf(res.EventLogHash, "%x", &lh)
 		return ok, res.Choices, &RunReport{V: res.Violation, LogHash: lh}
